@@ -268,9 +268,9 @@ fn check_lifecycle(frames: &[Value], rep: &mut Report, case: &Value) -> String {
     compact
 }
 
-async fn task_case(app: &axum::Router, data_dir: &std::path::Path, ws: &std::path::Path, rng: &mut Rng, rep: &mut Report, model: &mut Model) {
+async fn task_case(app: &axum::Router, data_dir: &std::path::Path, ws: &std::path::Path, rng: &mut Rng, rep: &mut Report, model: &mut Model, force: Option<&'static str>) {
     let kinds = ["plain", "both", "multibyte", "binary", "big", "exit7", "cancel", "cancel_after_exit", "invalid_args", "bad_cwd", "cwd_escape", "preview0", "preview2", "cap", "unsupported_tool", "no_artifact_store", "huge"];
-    let kind = *rng.pick(&kinds);
+    let kind = force.unwrap_or_else(|| *rng.pick(&kinds));
     let mut args = match kind {
         "plain" => json!({"command": "printf 'hello\\nworld\\n'"}),
         "both" => json!({"command": "printf out1; printf err1 >&2; sleep 0.02; printf out2; printf err2 >&2"}),
@@ -285,6 +285,10 @@ async fn task_case(app: &axum::Router, data_dir: &std::path::Path, ws: &std::pat
         // the command itself exits at once; a background grandchild keeps the pipes open for a while: a
         // cancel that arrives in between comes after the process has exited and before the terminal frame
         "cancel_after_exit" => json!({"command": "printf started; sleep 0.9 &"}),
+        // nobody cancels: the command exits at once and a background descendant that inherited the
+        // pipes writes seconds later. Whatever it writes belongs before the terminal status (or is not
+        // recorded at all); the run below keeps looking at the log for a while after the terminal frame
+        "lingering_writer" => json!({"command": "printf early; (sleep 4.6; printf late; sleep 0.3; printf later >&2) &"}),
         "invalid_args" => json!({"command": 5}),
         // starts that fail before a process exists: the stream still opens with the spawn frame and
         // ends with exactly one terminal frame
@@ -351,11 +355,16 @@ async fn task_case(app: &axum::Router, data_dir: &std::path::Path, ws: &std::pat
         rep.oracle_failure("C17|no-terminal-status", "task did not reach a terminal status within 8 s", case.clone());
         return;
     }
-    tokio::time::sleep(std::time::Duration::from_millis(30)).await;
+    tokio::time::sleep(std::time::Duration::from_millis(if kind == "lingering_writer" { 3_500 } else { 30 })).await;
     // recorded frames of the task, from the truth log
     let log = std::fs::read_to_string(data_dir.join("events.jsonl")).unwrap_or_default();
     let frames: Vec<Value> = log.lines().filter_map(|l| serde_json::from_str::<Value>(l).ok()).filter(|v| v["session_id"].as_str() == Some(id.as_str())).collect();
     rep.traces_validated += 1;
+    if kind == "lingering_writer" && std::env::var("RVH_DEBUG").is_ok() {
+        for f in &frames {
+            eprintln!("DEBUG lingering: {} {} {:?} {:?}", f["seq"], f["type"], f["status"], f["chunk"]);
+        }
+    }
     let compact = check_lifecycle(&frames, rep, &case);
     // the Lean lifecycle automaton (the object of theorem lifecycle_complete) must accept the real trace
     let labels: Vec<String> = frames
@@ -467,8 +476,9 @@ pub fn run(opts: &Opts) -> Report {
     let n = if opts.thorough { 300 } else { 45 } * opts.scale;
     rt.block_on(async {
         let app = ripd::verif_export::build_app(data_dir.clone(), ws.clone(), false);
+        task_case(&app, &data_dir, &ws, &mut rng, &mut rep, &mut model, Some("lingering_writer")).await;
         for _ in 0..n {
-            task_case(&app, &data_dir, &ws, &mut rng, &mut rep, &mut model).await;
+            task_case(&app, &data_dir, &ws, &mut rng, &mut rep, &mut model, None).await;
         }
     });
     rep
